@@ -330,7 +330,11 @@ func genC16(d *Draw) Case {
 	}
 	for i, n := 0, d.N(4); i < n; i++ {
 		target := names[d.N(len(names))]
-		paths := []string{"who", "n", "deep.list.1", "deep.flag", "missing", "deep.missing.more", "0", "name", "tags.1", "inner.b", ""}
+		paths := []string{"who", "n", "deep.list.1", "deep.flag", "missing", "deep.missing.more", "0", "name", "tags.1", "inner.b", "",
+			// paths that lead nowhere in less ordinary ways: negative, huge and non-numeric indexes, empty segments, a key
+			// into an array, an index into an object, a path through a scalar, characters with a meaning in path languages
+			"-1", "tags.-1", "deep.list.-1", "tags.99999999999999999999", "tags.1.x", "deep.list.one", "deep..flag", "deep.flag.", ".deep",
+			"tags.#", "tags.#.x", "deep.*", "deep.list.@reverse", "inner.b.c.d.e", "deep.list.1e3", "tags.0x1", "tags.+1", "n.0"}
 		ref := "$" + target + "." + paths[d.N(len(paths))]
 		switch d.N(6) {
 		case 0:
